@@ -664,12 +664,24 @@ def b_reject(job):
     # also right after a push: a rejected command on a deeper level than the state it collides with
     positions += [i + 1 for i, c in enumerate(body) if c["c"] == "push" and rng.random() < 0.5]
     positions = sorted(set(positions))
+    forced = []
+    if kind == "itp":
+        # a rejected assert (well-formed, not Boolean) before the assertions that later queries refer to by position
+        cand = [t_ for t_, w_ in bads if w_ == "non-Boolean assertion"]
+        first_assert = next((i for i, c in enumerate(body) if c["c"] == "assert"), 0)
+        at = rng.choice([first_assert, first_assert + 1, rng.randint(0, len(body))])
+        positions = sorted(set(positions + [at]))
+        forced = [(at, rng.choice(cand))]
     used_names = set()
     scopes = [{"defs": [], "names": []}]          # what the script has introduced, per push level
     for i, c in enumerate(body):
         while positions and positions[0] == i:
             positions.pop(0)
             text, why = rng.choice(bads)
+            if forced and forced[0][0] == i:
+                text, why = forced.pop(0)[1], "non-Boolean assertion"
+                dirty.append({"c": "raw", "text": text, "must": "reject", "why": why, "ci": 0})
+                continue
             # rejected commands that collide with what is in scope: a second definition of a defined function (at
             # the same or at a deeper level), a second use of an active name
             indefs = [(d, lv) for lv, sc in enumerate(scopes) for d in sc["defs"]]
